@@ -4,7 +4,9 @@
   Model: NutsModel/C09/Entry.lean over NutsModel/C09/Ambassador.lean.
 -/
 import NutsModel.C09.Entry
+import NutsModel.C09.SeenSet
 import NutsModel.Facts.C09
+import NutsModel.Facts.C10
 import NutsProofs.Lemmas.C09
 
 namespace Nuts.C09.Props
@@ -40,6 +42,21 @@ theorem fact_network_event_classification :
        "  return false, err",
        "return true, nil"] := by decide
 
+/-- the head of `handleUpdateDIDDocument`'s loop over the prevs: an error of the version lookup that is not not-found
+    RETURNS (the update is refused / deferred); only "no version" moves on to the next prev -/
+theorem fact_update_lookup_error_branch :
+    Facts.C09.updateLookupLoopHead =
+      ["version, metadata, err := n.didStore.Resolve(proposedDIDDocument.ID, &resolver.ResolveMetadata{AllowDeactivated: true, SourceTransaction: &ref})",
+       "err != nil && !errors.Is(err, resolver.ErrNotFound) => return error",
+       "version == nil => continue"] := by rfl
+
+/-- `basicServiceValidator`'s seen-set of service types is looked up and recorded under the SAME key, the raw type string
+    (what `validateSvcs` hard-codes: `knownTypes.contains s.type` / `s.type :: knownTypes`) -/
+theorem fact_service_type_seen_set_keys :
+    Facts.C09.serviceTypeLookupKey = "service.Type" ∧ Facts.C09.serviceTypeRecordKey = "service.Type" ∧
+    (serviceTypeKey Facts.C09.serviceTypeLookupKey).isSome = true ∧
+    (serviceTypeKey Facts.C09.serviceTypeRecordKey).isSome = true := by decide
+
 /-- the entry configuration the source describes today -/
 def entryCfg : EntryCfg :=
   { payloadEventType := Facts.C09.payloadEventType, didDocumentType := Facts.C09.didDocumentType }
@@ -66,15 +83,23 @@ theorem notify_refines_callback (e : EntryCfg) (c : Cfg) (s : Store) (ev : DagEv
   cases callback c s ev.tx ev.payload <;> simp [isDatabaseErr]
 
 theorem callbackF_ok_iff (c : Cfg) (s s' : Store) (tx : Tx) (pd : Option NDoc) (f : Option AddFault) :
-    callbackF c s tx pd f = .ok s' ↔ f = none ∧ callback c s tx pd = .ok s' := by
+    callbackF c s tx pd f = .ok s' ↔ faultHit c s tx pd f = false ∧ callback c s tx pd = .ok s' := by
   cases f with
-  | none => simp [callbackF]
+  | none => simp [callbackF, faultHit]
   | some ft =>
-    simp only [callbackF]
-    cases callback c s tx pd with
-    | ok _ => simp
-    | err x => by_cases hx : isStoreErr x = true <;> simp [hx]
-    | panic _ => simp
+    cases hs : ft.site with
+    | add =>
+      simp only [callbackF, faultHit, hs]
+      cases callback c s tx pd with
+      | ok _ => simp
+      | err x => by_cases hx : isStoreErr x = true <;> simp [hx]
+      | panic _ => simp
+    | lookup ks fb =>
+      simp only [callbackF, hs]
+      by_cases hh : faultHit c s tx pd (some ft) = true
+      · simp [hh]
+      · have hh' : faultHit c s tx pd (some ft) = false := Bool.eq_false_iff.mpr hh
+        simp [hh']
 
 theorem handleNetworkEvent_fst (b : Bool) (c : Cfg) (s : Store) (ev : DagEvent) (f : Option AddFault) :
     (handleNetworkEvent b c s ev f).1 = (match callbackF c s ev.tx ev.payload f with | .ok s' => s' | _ => s) := by
@@ -96,7 +121,7 @@ theorem handleNetworkEvent_finished (b : Bool) (c : Cfg) (s : Store) (ev : DagEv
     transaction `callback` accepts with a working store (so `callback_accepts_iff` describes them). -/
 theorem finished_iff_accepted (e : EntryCfg) (b : Bool) (c : Cfg) (s : Store) (ev : DagEvent) (f : Option AddFault) :
     (notify e b c s ev f).2 = some .finished ↔
-      selectionFilter e ev = true ∧ f = none ∧ ∃ s', callback c s ev.tx ev.payload = .ok s' := by
+      selectionFilter e ev = true ∧ faultHit c s ev.tx ev.payload f = false ∧ ∃ s', callback c s ev.tx ev.payload = .ok s' := by
   unfold notify
   by_cases hf : selectionFilter e ev = true
   · simp only [hf, if_true, Option.some.injEq, true_and]
@@ -115,7 +140,8 @@ theorem finished_iff_accepted (e : EntryCfg) (b : Bool) (c : Cfg) (s : Store) (e
     `Resolve`, the key resolver and all later decisions) as it was. -/
 theorem notify_changes_only_if_accepted (e : EntryCfg) (b : Bool) (c : Cfg) (s : Store) (ev : DagEvent) (f : Option AddFault)
     (h : (notify e b c s ev f).1 ≠ s) :
-    selectionFilter e ev = true ∧ f = none ∧ callback c s ev.tx ev.payload = .ok (notify e b c s ev f).1 := by
+    selectionFilter e ev = true ∧ faultHit c s ev.tx ev.payload f = false ∧
+      callback c s ev.tx ev.payload = .ok (notify e b c s ev f).1 := by
   unfold notify at h ⊢
   by_cases hf : selectionFilter e ev = true
   · simp only [hf, if_true] at h ⊢
@@ -134,14 +160,14 @@ theorem notify_changes_only_if_accepted (e : EntryCfg) (b : Bool) (c : Cfg) (s :
     with a non-database store error it is `fatal`; and without a fault NO answer is ever `retry`. -/
 theorem store_fault_classification (e : EntryCfg) (c : Cfg) (s s' : Store) (ev : DagEvent) (n : String)
     (hf : selectionFilter e ev = true) (hcb : callback c s ev.tx ev.payload = .ok s') :
-    notify e true c s ev (some ⟨n, true⟩) = (s, some (.retry (faultErr ⟨n, true⟩))) ∧
-    notify e true c s ev (some ⟨n, false⟩) = (s, some (.fatal (faultErr ⟨n, false⟩))) ∧
+    notify e true c s ev (some { name := n, isDb := true }) = (s, some (.retry ("store:fault:" ++ n))) ∧
+    notify e true c s ev (some { name := n, isDb := false }) = (s, some (.fatal ("store:fault:" ++ n))) ∧
     (∀ ev' x, (notify e true c s ev' none).2 ≠ some (.retry x)) := by
   refine ⟨?_, ?_, ?_⟩
   · unfold notify handleNetworkEvent callbackF
-    simp [hf, hcb, isDatabaseErr]
+    simp [hf, hcb, isDatabaseErr, faultErr]
   · unfold notify handleNetworkEvent callbackF
-    simp [hf, hcb, isDatabaseErr]
+    simp [hf, hcb, isDatabaseErr, faultErr]
   · intro ev' x
     unfold notify handleNetworkEvent callbackF
     by_cases hf' : selectionFilter e ev' = true
@@ -176,73 +202,194 @@ theorem notify_eq_reprocessOne_of_passed (e : EntryCfg) (b : Bool) (c : Cfg) (s 
   | err x => by_cases hb : (b && !isDatabaseErr none x) = true <;> simp [hb]
   | panic x => rfl
 
-theorem notify_skip (e : EntryCfg) (b : Bool) (c : Cfg) (s : Store) (ev : DagEvent) (f : Option AddFault)
-    (h : (selectionFilter e ev && f.isNone) = false) : (notify e b c s ev f).1 = s := by
-  apply Classical.byContradiction
-  intro hne
-  obtain ⟨h1, h2, _⟩ := notify_changes_only_if_accepted e b c s ev f hne
-  simp [h1, h2] at h
+/-- one event either leaves the store alone or does exactly what `callback` (as `reprocessOne`) does -/
+theorem notify_step (e : EntryCfg) (b : Bool) (c : Cfg) (s : Store) (ev : DagEvent) (f : Option AddFault) :
+    (notify e b c s ev f).1 = s ∨
+    (selectionFilter e ev = true ∧ faultHit c s ev.tx ev.payload f = false ∧
+      (notify e b c s ev f).1 = reprocessOne c s ev.tx ev.payload) := by
+  by_cases hne : (notify e b c s ev f).1 = s
+  · exact Or.inl hne
+  · obtain ⟨h1, h2, h3⟩ := notify_changes_only_if_accepted e b c s ev f hne
+    refine Or.inr ⟨h1, h2, ?_⟩
+    unfold reprocessOne
+    rw [h3]
 
-/-- **Any event stream = `callback` over the events that pass.** Whatever the DAG publishes to the subscription — any
-    length, any event types and payload types, store faults at any deliveries — the store afterwards is the store that
-    results from running `callback` over exactly the events that pass the filter with a working store, in order. -/
-theorem event_stream_is_callback_of_passed (e : EntryCfg) (b : Bool) (c : Cfg) :
-    ∀ (l : List (DagEvent × Option AddFault)) (s : Store),
-      notifyAll e b c s l = reprocess c s (passed e l) := by
+/-- **All event streams: resolvable only if accepted.** After ANY stream of DAG events — any length, any event types and
+    payload types, store faults (failing `Add`, failing version lookups, database or other errors) at any deliveries —
+    over ANY store, every event in every DID's list was there before or is the (transaction, document) of an event of
+    the stream that passed the selection filter, executed no failing store call, and was accepted by `callback` in the
+    state reached at that moment (so it satisfies `callback_accepts_iff`). -/
+theorem event_stream_resolvable_only_if_accepted (e : EntryCfg) (b : Bool) (c : Cfg) :
+    ∀ (l : List (DagEvent × Option AddFault)) (s : Store) (id : String) (x : Event),
+      x ∈ ((notifyAll e b c s l).get id).events →
+      x ∈ (s.get id).events ∨
+      ∃ pre ev f post d s', l = pre ++ (ev, f) :: post ∧ selectionFilter e ev = true ∧
+        faultHit c (notifyAll e b c s pre) ev.tx ev.payload f = false ∧ ev.payload = some d ∧
+        x = eventOf ev.tx d ∧ d.id = id ∧ callback c (notifyAll e b c s pre) ev.tx (some d) = .ok s' := by
   intro l
   induction l with
-  | nil => intro s; rfl
+  | nil => intro s id x h; exact Or.inl h
   | cons p ps ih =>
-    intro s
-    unfold notifyAll passed
-    by_cases hp : (selectionFilter e p.1 && p.2.isNone) = true
-    · simp only [hp, if_true]
-      have hsel : selectionFilter e p.1 = true := by
-        cases h : selectionFilter e p.1 <;> simp [h] at hp ⊢
-      have hnone : p.2 = none := by
-        cases h : p.2 <;> simp [h] at hp ⊢
-      rw [hnone, notify_eq_reprocessOne_of_passed e b c s p.1 hsel, ih]
-      rfl
-    · have hp' : (selectionFilter e p.1 && p.2.isNone) = false := Bool.eq_false_iff.mpr hp
-      rw [notify_skip e b c s p.1 p.2 hp', ih]
-      simp [hp']
+    intro s id x h
+    obtain ⟨ev, f⟩ := p
+    simp only [notifyAll] at h
+    rcases ih _ id x h with h1 | ⟨pre, ev', f', post, d, s', hl, hsel, hhit, hpd, hx, hid, hok⟩
+    · rcases notify_step e b c s ev f with hs | ⟨hsel, hhit, hs⟩
+      · rw [hs] at h1; exact Or.inl h1
+      · rw [hs] at h1
+        rcases reprocessOne_events c s ev.tx ev.payload id x h1 with h2 | ⟨d, s', hpd, hok, hx, hid⟩
+        · exact Or.inl h2
+        · exact Or.inr ⟨[], ev, f, ps, d, s', rfl, hsel, hhit, hpd, hx, hid, hok⟩
+    · refine Or.inr ⟨(ev, f) :: pre, ev', f', post, d, s', by rw [hl]; rfl, hsel, ?_, hpd, hx, hid, ?_⟩
+      · simpa [notifyAll] using hhit
+      · simpa [notifyAll] using hok
 
-/-- **All event streams: resolvable only if accepted.** After ANY stream of DAG events (with any store faults) over
-    ANY store, every event in every DID's list was there before or is the (transaction, document) of an event of the
-    stream that passed the selection filter, met a working store and was accepted by `callback` in the state reached at
-    that moment (so it satisfies `callback_accepts_iff`). -/
-theorem event_stream_resolvable_only_if_accepted (e : EntryCfg) (b : Bool) (c : Cfg)
-    (l : List (DagEvent × Option AddFault)) (s : Store) (id : String) (x : Event)
-    (h : x ∈ ((notifyAll e b c s l).get id).events) :
-    x ∈ (s.get id).events ∨
-    ∃ pre tx d post s', passed e l = pre ++ (tx, some d) :: post ∧ x = eventOf tx d ∧ d.id = id ∧
-      callback c (reprocess c s pre) tx (some d) = .ok s' := by
-  rw [event_stream_is_callback_of_passed] at h
-  exact reprocess_events c (passed e l) s id x h
+/-! ### failing version lookups (`didStore.Resolve` in `handleUpdateDIDDocument`) -/
 
-/-- every pair of `passed` comes from an event of the stream that passed the filter without a fault -/
-theorem passed_mem (e : EntryCfg) (l : List (DagEvent × Option AddFault)) (p : Tx × Option NDoc)
-    (h : p ∈ passed e l) : ∃ ev, (ev, none) ∈ l ∧ selectionFilter e ev = true ∧ p = (ev.tx, ev.payload) := by
-  induction l with
-  | nil => simp [passed] at h
-  | cons q qs ih =>
-    unfold passed at h
-    by_cases hq : (selectionFilter e q.1 && q.2.isNone) = true
-    · simp only [hq, if_true] at h
-      have hsel : selectionFilter e q.1 = true := by
-        cases hh : selectionFilter e q.1 <;> simp [hh] at hq ⊢
-      have hnone : q.2 = none := by
-        cases hh : q.2 <;> simp [hh] at hq ⊢
-      rcases List.mem_cons.mp h with h0 | h1
-      · refine ⟨q.1, ?_, hsel, h0⟩
-        have : q = (q.1, none) := by rw [← hnone]
-        rw [← this]; exact List.mem_cons_self
-      · obtain ⟨ev, hm, hs, hp⟩ := ih h1
-        exact ⟨ev, List.mem_cons_of_mem _ hm, hs, hp⟩
-    · have hq' : (selectionFilter e q.1 && q.2.isNone) = false := Bool.eq_false_iff.mpr hq
-      simp only [hq'] at h
-      obtain ⟨ev, hm, hs, hp⟩ := ih (by simpa using h)
-      exact ⟨ev, List.mem_cons_of_mem _ hm, hs, hp⟩
+/-- **A version that cannot be looked up is never skipped.** An update that reaches `handleUpdateDIDDocument` while
+    the lookup of the version named by its k-th prev fails (k within the prevs; wherever in the list, whatever the other
+    prevs name, whether or not a version was already found) is NOT accepted: the store stays as it was, the answer is
+    the lookup error — `retry` for a database error (the notifier delivers it again), `fatal` otherwise — and in no
+    case `finished`. In particular the "authorised under EVERY named version" check
+    (`accepted_update_authorised_under_every_named_version`) cannot be thinned out by store errors. -/
+theorem lookup_fault_never_accepts (e : EntryCfg) (c : Cfg) (s : Store) (ev : DagEvent) (d : NDoc)
+    (n : String) (db : Bool) (ks : List Nat) (fb : Bool) (k : Nat)
+    (hf : selectionFilter e ev = true) (hr : reachesUpdate c ev.tx ev.payload = some d)
+    (hk : k ∈ ks) (hlen : k < ev.tx.prevs.length) :
+    notify e true c s ev (some { name := n, isDb := db, site := .lookup ks fb }) =
+      (s, some (if db then .retry ("update:resolve:fault:" ++ n) else .fatal ("update:resolve:fault:" ++ n))) := by
+  have hhit : faultHit c s ev.tx ev.payload (some { name := n, isDb := db, site := .lookup ks fb }) = true := by
+    simp only [faultHit, hr, lookupHit]
+    have : ks.any (fun k => decide (k < ev.tx.prevs.length)) = true :=
+      List.any_eq_true.mpr ⟨k, hk, by simpa using hlen⟩
+    simp [this]
+  unfold notify handleNetworkEvent
+  simp only [hf, if_true, callbackF, hhit]
+  cases db <;> simp [isDatabaseErr, faultErr]
+
+/-- the same for the fallback lookup: when no prev names a version and the latest-version lookup fails -/
+theorem fallback_lookup_fault_never_accepts (e : EntryCfg) (c : Cfg) (s : Store) (ev : DagEvent) (d : NDoc)
+    (n : String) (db : Bool) (ks : List Nat)
+    (hf : selectionFilter e ev = true) (hr : reachesUpdate c ev.tx ev.payload = some d)
+    (hfb : fallbackUsed s d.id ev.tx.prevs = true) :
+    (notify e true c s ev (some { name := n, isDb := db, site := .lookup ks true })).1 = s ∧
+    (notify e true c s ev (some { name := n, isDb := db, site := .lookup ks true })).2 ≠ some .finished := by
+  have hhit : faultHit c s ev.tx ev.payload (some { name := n, isDb := db, site := .lookup ks true }) = true := by
+    simp [faultHit, hr, lookupHit, hfb]
+  constructor
+  · apply Classical.byContradiction
+    intro hne
+    obtain ⟨_, h2, _⟩ := notify_changes_only_if_accepted e true c s ev _ hne
+    rw [hhit] at h2; cases h2
+  · intro hfin
+    obtain ⟨_, h2, _⟩ := (finished_iff_accepted e true c s ev _).mp hfin
+    rw [hhit] at h2; cases h2
+
+/-- a lookup fault that is not executed (position beyond the prevs, delivery refused earlier, creation) changes nothing -/
+theorem lookup_fault_not_hit (c : Cfg) (s : Store) (tx : Tx) (pd : Option NDoc) (f : AddFault) (ks : List Nat) (fb : Bool)
+    (hs : f.site = .lookup ks fb) (h : faultHit c s tx pd (some f) = false) :
+    callbackF c s tx pd (some f) = callback c s tx pd := by
+  simp [callbackF, hs, h]
+
+/-- `reachesUpdate` is exactly "callback hands the document to handleUpdateDIDDocument" -/
+theorem callback_of_reachesUpdate (c : Cfg) (s : Store) (tx : Tx) (pd : Option NDoc) (d : NDoc)
+    (h : reachesUpdate c tx pd = some d) : callback c s tx pd = handleUpdate c s tx d := by
+  unfold reachesUpdate at h
+  unfold callback
+  cases hi : checkTransactionIntegrity tx with
+  | ok u =>
+    rw [hi] at h
+    cases pd with
+    | none => simp at h
+    | some d' =>
+      simp only [] at h ⊢
+      cases hv : validate c.thumb c.vmNilJwkErr c.validators d' with
+      | ok u' =>
+        rw [hv] at h
+        cases he : tx.embedded with
+        | none => rw [he] at h; simp only [Option.some.injEq] at h; subst h; rfl
+        | some k => rw [he] at h; simp at h
+      | err x => rw [hv] at h; simp at h
+      | panic x => rw [hv] at h; simp at h
+  | err x => rw [hi] at h; simp at h
+  | panic x => rw [hi] at h; simp at h
+
+/-! ### the seen-set of service types -/
+
+/-- **Same key on both sides ⇒ the rule is exact.** Looked up and recorded under one key function, the seen-set lets a
+    list of types pass iff no two of them have the same key (and none collides with what was seen before). -/
+theorem seenSet_same_key (key : String → String) :
+    ∀ (ts seen : List String),
+      seenSetRejects key key ts seen = false ↔ (ts.map key).Nodup ∧ ∀ t ∈ ts, key t ∉ seen := by
+  intro ts
+  induction ts with
+  | nil => intro seen; simp [seenSetRejects]
+  | cons t ts ih =>
+    intro seen
+    unfold seenSetRejects
+    by_cases h : seen.contains (key t) = true
+    · simp only [h, if_true]
+      have hm : key t ∈ seen := by simpa using h
+      constructor
+      · intro hf; cases hf
+      · rintro ⟨_, h2⟩; exact absurd hm (h2 t List.mem_cons_self)
+    · have hn : key t ∉ seen := by simpa using h
+      rw [if_neg h, ih (key t :: seen)]
+      simp only [List.map_cons, List.nodup_cons, List.mem_map, List.mem_cons]
+      constructor
+      · rintro ⟨hnd, hall⟩
+        refine ⟨⟨?_, hnd⟩, ?_⟩
+        · rintro ⟨u, hu, hku⟩
+          exact (hall u hu) (Or.inl hku)
+        · intro u hu
+          rcases hu with rfl | hu
+          · exact hn
+          · intro hmem; exact (hall u hu) (Or.inr hmem)
+      · rintro ⟨⟨hnot, hnd⟩, hall⟩
+        refine ⟨hnd, ?_⟩
+        intro u hu hor
+        rcases hor with heq | hmem
+        · exact hnot ⟨u, hu, heq⟩
+        · exact (hall u (Or.inr hu)) hmem
+
+/-- **Different keys ⇒ the rule leaks.** If the looked-up key of some type differs from its recorded key, that very type
+    may occur twice (why `fact_service_type_seen_set_keys` is an obligation and not a remark). -/
+theorem seenSet_key_mismatch_misses (look rec : String → String) (t : String) (h : look t ≠ rec t) :
+    seenSetRejects look rec [t, t] [] = false := by
+  simp [seenSetRejects, h]
+
+/-- the model's service validator applies exactly this seen-set with the identity key: whatever it lets pass has
+    pairwise different type strings (also relative to the types seen before) -/
+theorem validateSvcs_ok_seenSet (owner : String) :
+    ∀ (ss : List NSvc) (ids types : List String),
+      validateSvcs (fun _ => true) owner ss ids types = .ok () →
+      seenSetRejects (fun t => t) (fun t => t) (ss.map (·.type)) types = false := by
+  intro ss
+  induction ss with
+  | nil => intro ids types _; rfl
+  | cons sv ss ih =>
+    intro ids types h
+    unfold validateSvcs at h
+    simp only [List.map_cons, seenSetRejects]
+    split at h
+    · cases h
+    · by_cases hc : types.contains sv.type = true
+      · have hm : sv.type ∈ types := by simpa using hc
+        simp [hm] at h
+      · have hm : ¬ sv.type ∈ types := by simpa using hc
+        rw [if_neg hc]
+        simp [hm] at h
+        exact ih _ _ h
+
+/-- accepted ⇒ at most one service per type STRING (end to end: `validate` is what `callback` runs) -/
+theorem validateSvcs_ok_types_nodup (owner : String) (ss : List NSvc)
+    (h : validateSvcs (fun _ => true) owner ss [] [] = .ok ()) : (ss.map (·.type)).Nodup := by
+  have h1 := validateSvcs_ok_seenSet owner ss [] [] h
+  have h2 := (seenSet_same_key (fun t => t) (ss.map (·.type)) []).mp h1
+  simpa [Function.comp_def] using h2.1
+
+example : seenSetRejects (fun t => t) (fun t => t) ["NutsComm ", "NutsComm "] [] = true := by decide
+example : seenSetRejects (fun t => t) (fun t => t) ["NutsComm", "NutsComm "] [] = false := by decide
 
 /-! ### non-vacuity -/
 
@@ -254,7 +401,39 @@ example : (evOf "payload" "application/did+json").coherent entryCfg := by unfold
 example : selectionFilter entryCfg (evOf "transaction" "application/did+json") = false := by decide
 example : selectionFilter entryCfg (evOf "payload" "application/vc+json") = false := by decide
 example : selectionFilter entryCfg (evOf "payload" "application/DID+json") = false := by decide
-example : (passed entryCfg [(evOf "payload" "application/did+json", none), (evOf "transaction" "application/did+json", none),
-    (evOf "payload" "application/did+json", some ⟨"x", true⟩)]).length = 1 := by decide
+
+/-! the removed-key scenario with a failing lookup: X lists key a in tx 100, tx 110 replaces it by key b; the holder of a
+    signs an update naming [100, 110]. Fault-free it is refused; with the lookup of 110's version failing it is
+    refused/deferred as well (the mutated loop that skips a failed lookup would accept it). -/
+private def cfgE : Cfg :=
+  { thumb := fun k => k, didThumb := fun k => "D" ++ k, maxDepth := Facts.C09.maxControllerDepth,
+    validators := Facts.C09.networkValidators, vmNilJwkErr := Facts.C09.verifyThumbprintGuardsNilJwk,
+    findKeyNilJwkErr := Facts.C09.findKeyGuardsNilJwk, store := cfgOf (fun _ l => l) Facts.C10.mergeSortedFields }
+private def vmE (k : String) : NVM := { id := "did:nuts:Da#" ++ k, pfx := "did:nuts:Da", frag := k, key := .key k }
+private def docE (keys : List String) : NDoc :=
+  { id := "did:nuts:Da", idID := "Da", vms := keys.map vmE, capInv := keys.map vmE }
+private def txCreate : Tx := { ref := 100, clock := 0, sigTime := 10, prevs := [], payloadHash := "p100", embedded := some "a", signer := "a" }
+private def txUpd (ref : Nat) (prevs : List Nat) (k : String) : Tx :=
+  { ref := ref, clock := 1, sigTime := 20, prevs := prevs, payloadHash := s!"p{ref}",
+    kid := { holder := "did:nuts:Da", id := "did:nuts:Da#" ++ k }, signer := k }
+private def evE (tx : Tx) (d : NDoc) : DagEvent :=
+  { evType := "payload", payloadType := "application/did+json", tx := tx, payload := some d }
+private def sE : Store :=
+  notifyAll entryCfg true cfgE {} [(evE txCreate (docE ["a"]), none), (evE (txUpd 110 [100] "a") (docE ["b"]), none)]
+private def evTakeover : DagEvent := evE (txUpd 120 [100, 110] "a") (docE ["a", "c"])
+
+example : (reachesUpdate cfgE evTakeover.tx evTakeover.payload).isSome = true := by decide
+example : ((notify entryCfg true cfgE sE evTakeover none).2.map Ack.render) = some "err:update:not-signed-by-controller" := by decide
+example : ((notify entryCfg true cfgE sE evTakeover (some { name := "db", isDb := true, site := .lookup [1] false })).2.map Ack.render)
+    = some "retry:err:update:resolve:fault:db" := by decide
+example : ((notify entryCfg true cfgE sE evTakeover (some { name := "other", isDb := false, site := .lookup [0] false })).2.map Ack.render)
+    = some "err:update:resolve:fault:other" := by decide
+-- a position beyond the prevs is never executed
+example : ((notify entryCfg true cfgE sE evTakeover (some { name := "db", isDb := true, site := .lookup [2] false })).2.map Ack.render)
+    = some "err:update:not-signed-by-controller" := by decide
+-- the legitimate update by key b, and the same with a database error at Add
+example : ((notify entryCfg true cfgE sE (evE (txUpd 130 [110] "b") (docE ["b", "c"])) none).2.map Ack.render) = some "ok" := by decide
+example : ((notify entryCfg true cfgE sE (evE (txUpd 130 [110] "b") (docE ["b", "c"])) (some { name := "db", isDb := true })).2.map Ack.render)
+    = some "retry:err:store:fault:db" := by decide
 
 end Nuts.C09.Props
